@@ -94,6 +94,60 @@ async def _function_test_between(ftest_spec):
     return {"prepared": True, "cases": [(t.label, bool(t.test_pass)) for t in (result.test_results or [])]}
 
 
+async def _test_first(spec, objects, inputs, owner, templates, value_functions, function_test, then):
+    """the reverse order: a FunctionTest of the kind runs FIRST (against the function as cached so far); THEN the
+    function is prepared again (`then="reprepare"`: a spec update, new resourceVersion) or another function of the
+    same kind is prepared for the first time (`then="another"`), and that one is reconciled.  Whatever class the
+    test runner left registered with kr8s is still alive at that point (see `test_first`)."""
+    from koreo.resource_function.reconcile import reconcile_resource_function
+
+    ku.reset()
+    for name, tspec in (templates or {}).items():
+        await ku.offer_resource_template(name, copy.deepcopy(tspec))
+    for name, vspec in (value_functions or {}).items():
+        await ku.offer_value_function(name, copy.deepcopy(vspec))
+    first = await ku.offer_resource_function("rf", copy.deepcopy(spec))
+    ftest = await _function_test_between(function_test) if hasattr(first, "crud_config") else None
+    if then == "another":
+        fn = await ku.offer_resource_function("rf-second", copy.deepcopy(spec))
+    else:
+        fn = await ku.offer_resource_function("rf", copy.deepcopy(spec), version="2")
+    c = cl.Cluster(objects=copy.deepcopy(objects))
+    c.log_lookups = True
+    if not hasattr(fn, "crud_config"):
+        return {"prepared": False, "prepare": ku.outcome_obs(fn), "cluster": c, "raised": None, "outcome": None,
+                "resource_id": None, "function_test": ftest}
+    raised, res = None, None
+    try:
+        res = await reconcile_resource_function(api=c, location="verif", function=fn, owner=owner,
+                                                inputs=celpy.json_to_cel(inputs))
+    except Exception as e:
+        raised = f"{type(e).__name__}: {e}"
+    return {"prepared": True, "cluster": c, "raised": raised, "outcome": None if res is None else res.outcome,
+            "resource_id": None if res is None else copy.deepcopy(res.resource_id), "function_test": ftest,
+            "prepared_fresh": fn is not first}
+
+
+def test_first(spec, objects, inputs, owner, templates, value_functions, function_test, then) -> dict:
+    """`_test_first` with the garbage collector held off: a class the FunctionTest runner registers is only
+    reachable through reference cycles, so whether it is still registered when the function is prepared would
+    otherwise depend on when the cyclic collector happens to run.  Collect before (a clean registry), keep the
+    collector off during the sequence, restore it afterwards."""
+    import gc
+
+    was_enabled = gc.isenabled()
+    gc.collect()
+    gc.disable()
+    try:
+        owner = (owner[0], copy.deepcopy(owner[1]))
+        return ku.run(_test_first(spec, objects or {}, inputs or {}, owner, templates, value_functions,
+                                  function_test, then))
+    finally:
+        if was_enabled:
+            gc.enable()
+        gc.collect()
+
+
 def reconcile(spec, objects=None, inputs=None, owner=(NS, OWNER_REF), templates=None, value_functions=None,
               cluster_ns="default", configure=None, function_test=None) -> dict:
     """one reconcile of a real prepared ResourceFunction against a fresh cluster holding `objects`;
@@ -468,6 +522,11 @@ def function_test_for(prog: dict, b: dict) -> dict:
 
 def run_program(prog: dict) -> dict:
     b = build(prog)
+    ft = prog.get("functionTest") or {}
+    if ft.get("order") in ("test-first-reprepare", "test-first-another"):
+        b["obs"] = test_first(b["spec"], b["objects"], b["inputs"], b["owner"], b["templates"], b["vfs"],
+                              function_test_for(prog, b), "another" if ft["order"].endswith("another") else "reprepare")
+        return b
     obs = reconcile(b["spec"], objects=b["objects"], inputs=b["inputs"], owner=b["owner"],
                     templates=b["templates"], value_functions=b["vfs"],
                     function_test=function_test_for(prog, b) if prog.get("functionTest") else None)
